@@ -181,3 +181,6 @@ func vh_C16_L4_close_across_the_wrap() { vh_C14_L1_close_after_data_and_reuse() 
 // (= C14.L1).
 func vh_C16_L4_karn_at_any_tsn()                  { vh_C19_L4_karn() }
 func vh_C16_L4_reset_request_number_at_the_wrap() { vh_C14_L1_close_after_data_and_reuse() }
+
+// C16.L4 (continued): a tail-loss-recovery episode ends wherever the TSNs lie (= C10.L7).
+func vh_C16_L4_tail_loss_recovery_ends_at_any_tsn() { vh_C10_L7_tail_loss_recovery_ends() }
